@@ -266,15 +266,20 @@ Qed.
 Theorem required_are_checked : required_are_checked_statement.
 Proof.
   intros uri gs g p chk Hin Hg.
-  pose (check := fun (uri : string) (s : getter_spec) =>
-                   let '(_, p, req, chk) := s in
-                   implb req (chk || (String.eqb uri "/api/loc/util/js" && String.eqb p "code"))).
+  pose (check := fun (uri : string) (s : getter_spec) => let '(_, _, req, chk) := s in implb req chk).
   assert (H : check uri (g, p, true, chk) = true).
   { apply (table_forall check loc_entries) with (bs := gs); [vm_compute; reflexivity|exact Hin|exact Hg]. }
-  unfold check in H. cbn [implb] in H. apply orb_prop in H. destruct H as [H|H].
-  - left; exact H.
-  - apply andb_prop in H. destruct H as [H1 H2].
-    apply String.eqb_eq in H1. apply String.eqb_eq in H2. right; split; assumption.
+  exact H.
+Qed.
+
+Theorem optional_ids_are_checked : optional_ids_are_checked_statement.
+Proof.
+  intros uri gs g req chk Hin Hg.
+  pose (check := fun (uri : string) (s : getter_spec) =>
+                   let '(_, p, _, chk) := s in implb (String.eqb p "id") chk).
+  assert (H : check uri (g, "id", req, chk) = true).
+  { apply (table_forall check loc_entries) with (bs := gs); [vm_compute; reflexivity|exact Hin|exact Hg]. }
+  exact H.
 Qed.
 
 (** * A checked getter that fails aborts the request *)
@@ -358,15 +363,16 @@ Proof.
   destruct (String.eqb uri "/api/loc/facts/take") eqn:E1.
   { apply String.eqb_eq in E1. subst uri. apply loc_lookup in Hin. vm_compute in Hin. injection Hin as <-. destruct Hg. }
   destruct (String.eqb uri "/api/loc/facts/replace") eqn:E2.
-  { apply String.eqb_eq in E2. subst uri. apply loc_lookup in Hin. vm_compute in Hin. injection Hin as <-. destruct Hg. }
+  { apply String.eqb_eq in E2. subst uri. rewrite (loc_lookup _ _ Hin).
+    destruct (run_getters_bad gs m [] g p req Hg Hbad) as [e ->]. eexists; reflexivity. }
   rewrite (loc_keys_prefix _ _ Hin). unfold dispatch_plain. rewrite (loc_lookup _ _ Hin).
   destruct (run_getters_bad gs m [] g p req Hg Hbad) as [e ->]. eexists; reflexivity.
 Qed.
 
 Theorem missing_or_illtyped_is_error : missing_or_illtyped_is_error_statement.
 Proof.
-  intros uri gs g p chk m Hin Hg Hne Hbad.
-  destruct (required_are_checked uri gs g p chk Hin Hg) as [->|Hx]; [|contradiction].
+  intros uri gs g p chk m Hin Hg Hbad.
+  rewrite (required_are_checked uri gs g p chk Hin Hg) in Hg.
   eapply checked_getter_rejects; eassumption.
 Qed.
 
@@ -418,8 +424,8 @@ Qed.
 
 Theorem missing_or_illtyped_is_400 : missing_or_illtyped_is_400_statement.
 Proof.
-  intros rq uri m gs g p chk Hd Hin Hg Hne Hbad.
-  destruct (missing_or_illtyped_is_error uri gs g p chk m Hin Hg Hne Hbad) as [e He].
+  intros rq uri m gs g p chk Hd Hin Hg Hbad.
+  destruct (missing_or_illtyped_is_error uri gs g p chk m Hin Hg Hbad) as [e He].
   pose proof Hin as Hin'. rewrite loc_entries_eq in Hin'. pose proof (loc_keys_prefix _ _ Hin') as Hpre.
   rewrite (serve_of_decode _ _ _ Hd).
   - rewrite He. eexists; reflexivity.
@@ -957,6 +963,12 @@ Proof.
            unfold dispatch, direct_call; rewrite <- Hu; eval_lits|]); [..|destruct Hin].
   all: try (plain_case Ha Hx; reflexivity).
   - (* replace *)
+    match goal with |- context [alookup ?u svc_loc_getters] =>
+      let v := eval vm_compute in (alookup u svc_loc_getters) in change (alookup u svc_loc_getters) with v end.
+    cbv iota.
+    rewrite (run_getters_agrees ["uri"] m r _ [] Ha);
+      [|repeat (constructor; [getter_ok_tac Hx|]); constructor].
+    cbv iota.
     set (m1 := ainsert "take" (JBool true) (ainsert "uri" (JStr "/api/loc/facts/search") m)).
     set (m2 := ainsert "uri" (JStr "/api/loc/facts/add") m1).
     assert (Ha1 : agrees ["take"; "uri"; "uri"] m1 r) by (apply agrees_insert, agrees_insert, Ha).
@@ -1130,25 +1142,18 @@ Proof.
   - exfalso. exact (run_getters_no_panic _ _ _ _ E).
 Qed.
 
-Lemma ignored_no_panic r w : (forall w', r <> Panic w') -> ignored r <> Panic w.
-Proof. intros H. destruct r; cbn; try discriminate. exfalso. exact (H _ eq_refl). Qed.
-
 Lemma dispatch_no_panic uri m w : dispatch uri m <> Panic w.
 Proof.
   unfold dispatch.
-  destruct (String.eqb uri "/api/loc/facts/take").
-  { apply ignored_no_panic. intros w'. apply dispatch_plain_no_panic. }
+  destruct (String.eqb uri "/api/loc/facts/take"); [apply dispatch_plain_no_panic|].
   destruct (String.eqb uri "/api/loc/facts/replace").
-  { pose proof (fun m w' => ignored_no_panic (dispatch_plain "/api/loc/facts/search" m) w'
-                             (fun w'' => dispatch_plain_no_panic _ _ w'')) as H1.
-    pose proof (fun m w' => ignored_no_panic (dispatch_plain "/api/loc/facts/add" m) w'
-                             (fun w'' => dispatch_plain_no_panic _ _ w'')) as H2.
-    set (a := ignored (dispatch_plain "/api/loc/facts/search" _)).
-    set (b := ignored (dispatch_plain "/api/loc/facts/add" _)).
-    assert (Ha : forall w', a <> Panic w') by (intros w'; apply H1).
-    assert (Hb : forall w', b <> Panic w') by (intros w'; apply H2).
-    destruct a; destruct b; try discriminate; exfalso;
-      first [eapply Ha; reflexivity | eapply Hb; reflexivity]. }
+  { destruct (alookup uri svc_loc_getters) as [gs|]; [|discriminate].
+    destruct (run_getters gs m []) eqn:Eg; try discriminate.
+    - destruct (dispatch_plain "/api/loc/facts/search" _) eqn:E1; try discriminate.
+      + destruct (dispatch_plain "/api/loc/facts/add" _) eqn:E2; try discriminate.
+        exfalso. exact (dispatch_plain_no_panic _ _ _ E2).
+      + exfalso. exact (dispatch_plain_no_panic _ _ _ E1).
+    - exfalso. exact (run_getters_no_panic _ _ _ _ Eg). }
   destruct (has_prefix "/api/loc/" uri); [apply dispatch_plain_no_panic|].
   destruct (mem_str uri svc_process_uris); discriminate.
 Qed.
@@ -1250,6 +1255,149 @@ Qed.
 
 (** * Counterexamples (findings) and examples *)
 
+(** * The composite operations report the errors of their inner requests *)
+
+Lemma run_getters_no_oof gs : forall m acc, run_getters gs m acc <> OutOfFuel.
+Proof.
+  induction gs as [|[[[g p] req] chk] gs IH]; intros m acc; cbn [run_getters]; [discriminate|].
+  destruct (run_getter g p req m) as [[v h] [e|]]; [destruct chk; [discriminate|apply IH]|apply IH].
+Qed.
+
+Lemma run_getter_err_bad g p req m v h e :
+  known_getter g = true ->
+  run_getter g p req m = (v, h, Some e) -> bad_for g req (alookup p m) = true.
+Proof.
+  unfold known_getter. intros Hk. revert Hk. unfold run_getter, bad_for, get_string_param, get_bool_param, get_map_param.
+  destruct (String.eqb g "GetStringParam").
+  { intros _. destruct (alookup p m) as [j|]; [|destruct req; intros H; inversion H; reflexivity].
+    destruct j; try (intros _; reflexivity); try (intros H; discriminate H).
+    destruct (join_strs l) eqn:Ej; [intros H; discriminate H|intros _].
+    destruct (all_strs l) eqn:Ea; [|reflexivity].
+    destruct (join_strs_all _ Ea) as [s' Hs]. rewrite Hs in Ej. discriminate. }
+  destruct (String.eqb g "getBoolParam").
+  { intros _. destruct (alookup p m) as [j|]; [|destruct req; intros H; inversion H; reflexivity].
+    destruct j; try (intros _; reflexivity); intros H; discriminate H. }
+  destruct (String.eqb g "getMapParam").
+  { intros _. destruct (alookup p m) as [j|]; [|destruct req; intros H; inversion H; reflexivity].
+    destruct j; try (intros _; reflexivity); intros H; discriminate H. }
+  discriminate.
+Qed.
+
+Lemma run_getters_err_inv gs : forall m acc e,
+  forallb (fun s : getter_spec => known_getter (fst (fst (fst s)))) gs = true ->
+  run_getters gs m acc = Err e ->
+  exists g p req, In (g, p, req, true) gs /\ bad_for g req (alookup p m) = true.
+Proof.
+  induction gs as [|[[[g p] req] chk] gs IH]; intros m acc e Hk; cbn [run_getters]; [discriminate|].
+  cbn [forallb fst] in Hk. apply andb_prop in Hk. destruct Hk as [Hk Hks]. specialize (IH m).
+  destruct (run_getter g p req m) as [[v h] [e'|]] eqn:Er.
+  - destruct chk.
+    + intros _. exists g, p, req. split; [left; reflexivity|eapply run_getter_err_bad; [exact Hk|exact Er]].
+    + intros H. destruct (IH _ _ Hks H) as (g' & p' & req' & Hin & Hb). exists g', p', req'. split; [right; exact Hin|exact Hb].
+  - intros H. destruct (IH _ _ Hks H) as (g' & p' & req' & Hin & Hb). exists g', p', req'. split; [right; exact Hin|exact Hb].
+Qed.
+
+Lemma inner_lookup p m u1 u2 :
+  p <> "uri" -> p <> "take" ->
+  alookup p (ainsert "uri" (JStr u2) (ainsert "take" (JBool true) (ainsert "uri" (JStr u1) m))) = alookup p m /\
+  alookup p (ainsert "take" (JBool true) (ainsert "uri" (JStr u1) m)) = alookup p m.
+Proof.
+  intros H1 H2. rewrite !alookup_ainsert.
+  apply String.eqb_neq in H1. apply String.eqb_neq in H2. rewrite H1, H2. split; reflexivity.
+Qed.
+
+Lemma search_rejects g p req m :
+  In (g, p, req, true) (inner_getters "/api/loc/facts/search") -> bad_for g req (alookup p m) = true ->
+  exists e, dispatch_plain "/api/loc/facts/search"
+              (ainsert "take" (JBool true) (ainsert "uri" (JStr "/api/loc/facts/search") m)) = Err e.
+Proof.
+  intros Hin Hbad. unfold dispatch_plain.
+  assert (Hl : alookup "/api/loc/facts/search" svc_loc_getters = Some (inner_getters "/api/loc/facts/search")) by reflexivity.
+  rewrite Hl.
+  assert (Hp : p <> "uri" /\ p <> "take").
+  { vm_compute in Hin. repeat (destruct Hin as [Hin|Hin]; [inversion Hin; split; discriminate|]). destruct Hin. }
+  destruct Hp as [Hp1 Hp2].
+  rewrite <- (proj2 (inner_lookup p m "/api/loc/facts/search" "" Hp1 Hp2)) in Hbad.
+  destruct (run_getters_bad _ _ [] g p req Hin Hbad) as [e ->]. eexists; reflexivity.
+Qed.
+
+Lemma replace_own_rejects g p req m :
+  In (g, p, req, true) (inner_getters "/api/loc/facts/replace") -> bad_for g req (alookup p m) = true ->
+  exists e, dispatch "/api/loc/facts/replace" m = Err e.
+Proof.
+  intros Hin Hbad. unfold dispatch.
+  change (String.eqb "/api/loc/facts/replace" "/api/loc/facts/take") with false.
+  change (String.eqb "/api/loc/facts/replace" "/api/loc/facts/replace") with true. cbv iota.
+  assert (Hl : alookup "/api/loc/facts/replace" svc_loc_getters = Some (inner_getters "/api/loc/facts/replace")) by reflexivity.
+  rewrite Hl. destruct (run_getters_bad _ m [] g p req Hin Hbad) as [e ->]. eexists; reflexivity.
+Qed.
+
+Lemma replace_search_rejects g p req m :
+  In (g, p, req, true) (inner_getters "/api/loc/facts/search") -> bad_for g req (alookup p m) = true ->
+  exists e, dispatch "/api/loc/facts/replace" m = Err e.
+Proof.
+  intros Hin Hbad. unfold dispatch.
+  change (String.eqb "/api/loc/facts/replace" "/api/loc/facts/take") with false.
+  change (String.eqb "/api/loc/facts/replace" "/api/loc/facts/replace") with true. cbv iota.
+  assert (Hl : alookup "/api/loc/facts/replace" svc_loc_getters = Some (inner_getters "/api/loc/facts/replace")) by reflexivity.
+  rewrite Hl.
+  destruct (run_getters (inner_getters "/api/loc/facts/replace") m []) eqn:Eg.
+  - destruct (search_rejects g p req m Hin Hbad) as [e ->]. eexists; reflexivity.
+  - eexists; reflexivity.
+  - exfalso. exact (run_getters_no_panic _ _ _ _ Eg).
+  - exfalso. exact (run_getters_no_oof _ _ _ Eg).
+Qed.
+
+Theorem composite_reports_inner_errors : composite_reports_inner_errors_statement.
+Proof.
+  intros g p req m Hbad. split.
+  - intros Hin. split.
+    + unfold dispatch. change (String.eqb "/api/loc/facts/take" "/api/loc/facts/take") with true. cbv iota.
+      exact (search_rejects g p req m Hin Hbad).
+    + exact (replace_search_rejects g p req m Hin Hbad).
+  - intros Hin. vm_compute in Hin.
+    destruct Hin as [Hin|[Hin|[Hin|[]]]]; inversion Hin; subst.
+    + apply (replace_own_rejects "getMapParam" "fact" true m); [vm_compute; tauto|exact Hbad].
+    + apply (replace_search_rejects "GetStringParam" "location" true m); [vm_compute; tauto|exact Hbad].
+    + apply (replace_own_rejects "GetStringParam" "id" false m); [vm_compute; tauto|exact Hbad].
+Qed.
+
+Lemma build_plan_add_shape b m :
+  exists args, build_plan "/api/loc/facts/add" b m = Ok (PCall "AddFact" args false).
+Proof. eexists. vm_compute. reflexivity. Qed.
+
+Theorem replace_add_not_rejected : replace_add_not_rejected_statement.
+Proof.
+  intros m p e H.
+  assert (Hl : alookup "/api/loc/facts/add" svc_loc_getters = Some (inner_getters "/api/loc/facts/add")) by reflexivity.
+  assert (G : exists g q req, In (g, q, req, true) (inner_getters "/api/loc/facts/add") /\
+                              bad_for g req (alookup q m) = true).
+  { revert H. unfold dispatch.
+    change (String.eqb "/api/loc/facts/replace" "/api/loc/facts/take") with false.
+    change (String.eqb "/api/loc/facts/replace" "/api/loc/facts/replace") with true. cbv iota.
+    destruct (alookup "/api/loc/facts/replace" svc_loc_getters) as [gs|]; [|discriminate].
+    destruct (run_getters gs m []); try discriminate.
+    destruct (dispatch_plain "/api/loc/facts/search" _) as [p1| | |]; try discriminate.
+    set (m2 := ainsert "uri" _ _).
+    destruct (dispatch_plain "/api/loc/facts/add" m2) as [q|e'| |] eqn:Ea; try discriminate.
+    - (* the add is planned: it is a call, not an error *)
+      intros H. exfalso. inversion H; subst. unfold dispatch_plain in Ea. rewrite Hl in Ea.
+      destruct (run_getters (inner_getters "/api/loc/facts/add") m2 []) as [b| | |]; discriminate.
+    - intros _. unfold dispatch_plain in Ea. rewrite Hl in Ea.
+      destruct (run_getters (inner_getters "/api/loc/facts/add") m2 []) as [b|e''| |] eqn:Eg; try discriminate.
+      assert (Hk : forallb (fun s : getter_spec => known_getter (fst (fst (fst s)))) (inner_getters "/api/loc/facts/add") = true)
+        by (vm_compute; reflexivity).
+      destruct (run_getters_err_inv _ _ _ _ Hk Eg) as (g & q & req & Hin & Hb).
+      exists g, q, req. split; [exact Hin|].
+      assert (Hq : q <> "uri" /\ q <> "take").
+      { pose proof Hin as Hin'. vm_compute in Hin'.
+        repeat (destruct Hin' as [Hin'|Hin']; [inversion Hin'; split; discriminate|]). destruct Hin'. }
+      destruct Hq as [Hq1 Hq2]. unfold m2 in Hb.
+      rewrite (proj1 (inner_lookup q m "/api/loc/facts/search" "/api/loc/facts/add" Hq1 Hq2)) in Hb. exact Hb. }
+  destruct G as (g & q & req & Hin & Hb).
+  destruct (proj2 (composite_reports_inner_errors g q req m Hb) Hin) as [e' He]. rewrite He in H. discriminate.
+Qed.
+
 Lemma empty_body_is_400 : empty_body_is_400_statement.
 Proof. split; vm_compute; reflexivity. Qed.
 
@@ -1262,10 +1410,10 @@ Proof. vm_compute. reflexivity. Qed.
 Lemma empty_typed_param_is_400 : empty_typed_param_is_400_statement.
 Proof. split; vm_compute; reflexivity. Qed.
 
-Lemma composite_swallows_errors_counterexample : composite_swallows_errors_counterexample_statement.
-Proof. split; vm_compute; reflexivity. Qed.
+Lemma composite_errors_are_reported : composite_errors_are_reported_statement.
+Proof. repeat split; vm_compute; reflexivity. Qed.
 
-Lemma unchecked_getter_counterexample : unchecked_getter_counterexample_statement.
+Lemma getter_errors_are_reported : getter_errors_are_reported_statement.
 Proof. repeat split; vm_compute; reflexivity. Qed.
 
 Lemma body_uri_overrides_path_counterexample : body_uri_overrides_path_counterexample_statement.
@@ -1325,7 +1473,6 @@ Proof.
            "GetStringParam" "location" true).
   - rewrite loc_entries_eq. vm_compute. tauto.
   - right; left; reflexivity.
-  - intros [H _]; discriminate.
   - reflexivity.
 Qed.
 
